@@ -403,3 +403,56 @@ Definition skel_has (calls : list str) (c : str) : bool := mem_str c calls.
    call gets its path from _safe_join *)
 Definition path_calls_confined (pairs : list (str * str)) : bool :=
   forallb (fun co => if fs_touching (fst co) then str_eqb (snd co) (s "_safe_join") else true) pairs.
+
+(* ======================================================================== ZIP / TAR member loops *)
+(* which members _extract_from_zip_optimized / _extract_from_tar_optimized READ into memory
+   (zf.read(info) / tf.extractfile(member)); the member list as the container library reports it is an oracle *)
+Record amember := {
+  a_name : str;
+  a_dir  : bool;      (* ZipInfo.is_dir() *)
+  a_enc  : bool;      (* ZipInfo.flag_bits & 0x1 *)
+  a_type : N;         (* TarInfo.type (one byte) *)
+  a_size : Z          (* ZipInfo.file_size / TarInfo.size *)
+}.
+
+(* TarInfo.isreg(): self.type in REGULAR_TYPES *)
+Definition tar_isreg (REG : list N) (ty : N) : bool := existsb (N.eqb ty) REG.
+
+Section Loops.
+  Variable skipn : str -> bool.            (* _should_skip_file(name, basename(name)) *)
+  Variable max_mem : Z.
+  Variable REG : list N.                   (* tarfile.REGULAR_TYPES *)
+
+  Definition tar_wanted (m : amember) : bool :=
+    tar_isreg REG (a_type m) && negb (skipn (a_name m)) && negb (max_mem <? a_size m).
+
+  (* indices (in getmembers() order) handed to tf.extractfile *)
+  Fixpoint tar_reads (i : nat) (ms : list amember) : list nat :=
+    match ms with
+    | [] => []
+    | m :: r => if tar_wanted m then i :: tar_reads (S i) r else tar_reads (S i) r
+    end.
+
+  (* first pass of the ZIP function: None = ExtractionFileEncryptedError raised before anything is read *)
+  Fixpoint zip_scan (i : nat) (ms : list amember) : option (list (nat * amember)) :=
+    match ms with
+    | [] => Some []
+    | m :: r =>
+        if a_dir m then zip_scan (S i) r
+        else if a_enc m then None
+        else if skipn (a_name m) then zip_scan (S i) r
+        else match zip_scan (S i) r with Some l => Some ((i, m) :: l) | None => None end
+    end.
+
+  (* second pass: indices (in infolist() order) handed to zf.read *)
+  Definition zip_reads (ms : list amember) : option (list nat) :=
+    match zip_scan 0 ms with
+    | None => None
+    | Some l => Some (map fst (filter (fun im => negb (max_mem <? a_size (snd im))) l))
+    end.
+End Loops.
+
+(* link, device, fifo and directory type flags of tarfile *)
+Definition TAR_SPECIAL : list N := [49; 50; 51; 52; 53; 54]%N.     (* '1' LNK '2' SYM '3' CHR '4' BLK '5' DIR '6' FIFO *)
+Definition reg_types_wf (REG : list N) : bool :=
+  forallb (fun ty => negb (tar_isreg REG ty)) TAR_SPECIAL && tar_isreg REG 48%N.
